@@ -15,7 +15,19 @@ import (
 // context-sensitively by recursion; the two digit writers (copies of time.fmtInt/fmtFrac,
 // validated by E8) are summarised by the number of bytes they can write.
 
-type ival struct{ lo, hi *big.Int }
+// An abstract integer: an interval, optionally relative to a symbolic base (value = sym + [lo,hi], with
+// one and the same unknown value of sym in sym.rng for every abstract value that shares it). The symbolic
+// base keeps the relation between a slice parameter's length and the cursors derived from it
+// (w := len(buf); w -= k; buf[w:] ...), which plain intervals lose as soon as the length is not a single value.
+type ival struct {
+	lo, hi *big.Int
+	sym    *symv
+}
+
+type symv struct {
+	rng ival // concrete
+	id  int
+}
 
 var (
 	two64 = new(big.Int).Lsh(big.NewInt(1), 64)
@@ -24,10 +36,26 @@ var (
 	maxI  = new(big.Int).Sub(new(big.Int).Lsh(big.NewInt(1), 63), big.NewInt(1))
 )
 
-func iv(lo, hi int64) ival     { return ival{big.NewInt(lo), big.NewInt(hi)} }
-func ivb(lo, hi *big.Int) ival { return ival{new(big.Int).Set(lo), new(big.Int).Set(hi)} }
-func (a ival) String() string  { return fmt.Sprintf("[%s,%s]", a.lo, a.hi) }
+func iv(lo, hi int64) ival     { return ival{big.NewInt(lo), big.NewInt(hi), nil} }
+func ivb(lo, hi *big.Int) ival { return ival{new(big.Int).Set(lo), new(big.Int).Set(hi), nil} }
+func (a ival) String() string {
+	if a.sym != nil {
+		return fmt.Sprintf("n%d+[%s,%s] (n%d in [%s,%s])", a.sym.id, a.lo, a.hi, a.sym.id, a.sym.rng.lo, a.sym.rng.hi)
+	}
+	return fmt.Sprintf("[%s,%s]", a.lo, a.hi)
+}
+
+// conc forgets the symbolic base.
+func (a ival) conc() ival {
+	if a.sym == nil {
+		return a
+	}
+	return ivb(new(big.Int).Add(a.sym.rng.lo, a.lo), new(big.Int).Add(a.sym.rng.hi, a.hi))
+}
 func (a ival) join(b ival) ival {
+	if a.sym != b.sym {
+		a, b = a.conc(), b.conc()
+	}
 	lo, hi := a.lo, a.hi
 	if b.lo.Cmp(lo) < 0 {
 		lo = b.lo
@@ -35,10 +63,51 @@ func (a ival) join(b ival) ival {
 	if b.hi.Cmp(hi) > 0 {
 		hi = b.hi
 	}
-	return ivb(lo, hi)
+	out := ivb(lo, hi)
+	out.sym = a.sym
+	return out
 }
-func (a ival) eq(b ival) bool { return a.lo.Cmp(b.lo) == 0 && a.hi.Cmp(b.hi) == 0 }
+func (a ival) eq(b ival) bool { return a.sym == b.sym && a.lo.Cmp(b.lo) == 0 && a.hi.Cmp(b.hi) == 0 }
 func (a ival) empty() bool    { return a.lo.Cmp(a.hi) > 0 }
+
+// addIv / subIv keep a symbolic base where the arithmetic allows it.
+func addIv(a, b ival) ival {
+	switch {
+	case a.sym != nil && b.sym != nil:
+		a, b = a.conc(), b.conc()
+	case b.sym != nil:
+		a, b = b, a
+	}
+	out := ivb(new(big.Int).Add(a.lo, b.lo), new(big.Int).Add(a.hi, b.hi))
+	out.sym = a.sym
+	return out
+}
+func subIv(a, b ival) ival {
+	switch {
+	case a.sym != nil && a.sym == b.sym:
+		return ivb(new(big.Int).Sub(a.lo, b.hi), new(big.Int).Sub(a.hi, b.lo))
+	case b.sym != nil:
+		a, b = a.conc(), b.conc()
+	}
+	out := ivb(new(big.Int).Sub(a.lo, b.hi), new(big.Int).Sub(a.hi, b.lo))
+	out.sym = a.sym
+	return out
+}
+
+// leIv: a <= b for all values; ltIv: a < b (same base: compare offsets).
+func leIv(a, b ival) bool {
+	if a.sym != b.sym {
+		a, b = a.conc(), b.conc()
+	}
+	return a.hi.Cmp(b.lo) <= 0
+}
+func ltIv(a, b ival) bool {
+	if a.sym != b.sym {
+		a, b = a.conc(), b.conc()
+	}
+	return a.hi.Cmp(b.lo) < 0
+}
+func nonNeg(a ival) bool { return a.conc().lo.Sign() >= 0 }
 
 func typeRange(t types.Type) ival {
 	if b, ok := t.Underlying().(*types.Basic); ok {
@@ -92,6 +161,7 @@ type ivAnalyzer struct {
 	depth  int
 	summar map[string]bool // names of summarised digit writers
 	failed string
+	nsym   int
 }
 
 // sliceLen evaluates the length interval of a slice-typed value.
@@ -131,7 +201,7 @@ func (a *ivAnalyzer) sliceLen(v ssa.Value, e env) (ival, bool) {
 			}
 			hi = h
 		}
-		return ivb(new(big.Int).Sub(hi.lo, lo.hi), new(big.Int).Sub(hi.hi, lo.lo)), true
+		return subIv(hi, lo), true
 	}
 	return ival{}, false
 }
@@ -166,6 +236,14 @@ func (a *ivAnalyzer) eval(v ssa.Value, e env) (ival, bool) {
 		if !ok {
 			return ival{}, false
 		}
+		if in.sym != nil {
+			// a conversion that cannot change the value keeps the relation
+			tr := typeRange(x.Type())
+			if c := in.conc(); c.lo.Cmp(tr.lo) >= 0 && c.hi.Cmp(tr.hi) <= 0 {
+				return in, true
+			}
+			in = in.conc()
+		}
 		from, to := isUnsigned(x.X.Type()), isUnsigned(x.Type())
 		if !from && to {
 			switch {
@@ -190,6 +268,7 @@ func (a *ivAnalyzer) eval(v ssa.Value, e env) (ival, bool) {
 			if !ok {
 				return ival{}, false
 			}
+			in = in.conc()
 			if isUnsigned(x.Type()) {
 				switch {
 				case in.hi.Sign() == 0:
@@ -210,11 +289,14 @@ func (a *ivAnalyzer) eval(v ssa.Value, e env) (ival, bool) {
 			return ival{}, false
 		}
 		var out ival
+		if x.Op != token.ADD && x.Op != token.SUB {
+			l, r = l.conc(), r.conc()
+		}
 		switch x.Op {
 		case token.ADD:
-			out = ivb(new(big.Int).Add(l.lo, r.lo), new(big.Int).Add(l.hi, r.hi))
+			out = addIv(l, r)
 		case token.SUB:
-			out = ivb(new(big.Int).Sub(l.lo, r.hi), new(big.Int).Sub(l.hi, r.lo))
+			out = subIv(l, r)
 		case token.MUL:
 			if l.lo.Sign() < 0 || r.lo.Sign() < 0 {
 				return typeRange(x.Type()), true
@@ -240,11 +322,8 @@ func (a *ivAnalyzer) eval(v ssa.Value, e env) (ival, bool) {
 			return ival{}, false
 		}
 		tr := typeRange(x.Type())
-		if out.lo.Cmp(tr.lo) < 0 || out.hi.Cmp(tr.hi) > 0 {
-			if isUnsigned(x.Type()) {
-				return tr, true // may wrap
-			}
-			return tr, true
+		if oc := out.conc(); oc.lo.Cmp(tr.lo) < 0 || oc.hi.Cmp(tr.hi) > 0 {
+			return tr, true // may wrap
 		}
 		return out, true
 	case *ssa.Call:
@@ -252,6 +331,12 @@ func (a *ivAnalyzer) eval(v ssa.Value, e env) (ival, bool) {
 			arg := x.Common().Args[0]
 			if s, ok := constString(arg); ok {
 				return iv(int64(len(s)), int64(len(s))), true
+			}
+			if bt, ok := arg.Type().Underlying().(*types.Basic); ok && bt.Info()&types.IsString != 0 {
+				if l, ok := e[arg]; ok {
+					return l, true // a string parameter is abstracted by its length
+				}
+				return ival{}, false
 			}
 			if pt, ok := arg.Type().Underlying().(*types.Pointer); ok {
 				if arr, ok := pt.Elem().Underlying().(*types.Array); ok {
@@ -288,6 +373,10 @@ func (a *ivAnalyzer) refine(cond ssa.Value, taken bool, e env) {
 	if !ok1 || !ok2 {
 		return
 	}
+	if l.sym != nil {
+		return // a value relative to a symbolic length is not narrowed (the relation is worth more)
+	}
+	r = r.conc()
 	op := bo.Op
 	if !taken {
 		switch op {
@@ -364,11 +453,12 @@ func (a *ivAnalyzer) analyze(fn *ssa.Function, params []ival) ([]ival, bool) {
 	base := env{}
 	for i, q := range fn.Params {
 		if i < len(params) && params[i].lo != nil {
-			base[q] = params[i]
-		} else if _, ok := q.Type().Underlying().(*types.Basic); ok {
+			base[q] = params[i] // (slices and strings are abstracted by their length)
+		} else if bt, ok := q.Type().Underlying().(*types.Basic); ok && bt.Info()&types.IsString == 0 {
 			base[q] = typeRange(q.Type())
 		}
 	}
+	start := len(a.obls) // obligations of earlier call contexts stay; those of this invocation are rebuilt per round
 	type edge struct{ from, to int }
 	edgeEnv := map[edge]env{}
 	inEnv := map[int]env{0: base}
@@ -376,7 +466,7 @@ func (a *ivAnalyzer) analyze(fn *ssa.Function, params []ival) ([]ival, bool) {
 	// iterate to a fixpoint (the CFG is acyclic: few rounds)
 	for round := 0; round < len(fn.Blocks)+2; round++ {
 		results = nil
-		a.obls = filterObls(a.obls, fn)
+		a.obls = a.obls[:start]
 		for _, b := range fn.Blocks {
 			var e env
 			if b.Index == 0 {
@@ -457,7 +547,7 @@ func (a *ivAnalyzer) analyze(fn *ssa.Function, params []ival) ([]ival, bool) {
 						if !ok1 || !ok2 {
 							a.oblige(fn, instrPos(x), "index", false, "index or length not evaluable")
 						} else {
-							good := idx.lo.Sign() >= 0 && idx.hi.Cmp(ln.lo) < 0
+							good := nonNeg(idx) && ltIv(idx, ln)
 							a.oblige(fn, instrPos(x), "index", good, "byte stored at index %s of a buffer of length %s", idx, ln)
 						}
 					}
@@ -481,7 +571,7 @@ func (a *ivAnalyzer) analyze(fn *ssa.Function, params []ival) ([]ival, bool) {
 							a.oblige(fn, instrPos(x), "slice", false, "slice bound not evaluable")
 							continue
 						}
-						good := bv.lo.Sign() >= 0 && bv.hi.Cmp(ln.lo) <= 0
+						good := nonNeg(bv) && leIv(bv, ln)
 						a.oblige(fn, instrPos(x), "slice", good, "slice bound %s on a buffer of length %s", bv, ln)
 					}
 				case *ssa.Call:
@@ -492,9 +582,11 @@ func (a *ivAnalyzer) analyze(fn *ssa.Function, params []ival) ([]ival, bool) {
 						var srcLen int64
 						if s, ok := constString(cc.Args[1]); ok {
 							srcLen, ok2 = int64(len(s)), true
+						} else if l, ok := e[cc.Args[1]]; ok && l.lo.Cmp(l.hi) == 0 && l.lo.IsInt64() {
+							srcLen, ok2 = l.lo.Int64(), true // a string parameter of known length in this call context
 						}
 						if ok1 && ok2 {
-							a.oblige(fn, instrPos(x), "copy", dl.lo.Cmp(big.NewInt(srcLen)) >= 0, "%d bytes copied into room for %s", srcLen, dl)
+							a.oblige(fn, instrPos(x), "copy", dl.conc().lo.Cmp(big.NewInt(srcLen)) >= 0, "%d bytes copied into room for %s", srcLen, dl)
 						} else {
 							a.oblige(fn, instrPos(x), "copy", false, "copy not evaluable")
 						}
@@ -512,10 +604,11 @@ func (a *ivAnalyzer) analyze(fn *ssa.Function, params []ival) ([]ival, bool) {
 							a.oblige(fn, instrPos(x), "digits", false, "fmtInt operands not evaluable")
 							continue
 						}
+						v = v.conc()
 						d := digits(v.hi)
-						nl := new(big.Int).Sub(ln.lo, big.NewInt(d))
-						a.oblige(fn, instrPos(x), "digits", nl.Sign() >= 0, "fmtInt writes up to %d digit(s) (value <= %s) into room for %s", d, v.hi, ln)
-						e[x] = ivb(nl, new(big.Int).Sub(ln.hi, big.NewInt(1)))
+						res := subIv(ln, iv(1, d)) // at least one digit, at most d
+						a.oblige(fn, instrPos(x), "digits", nonNeg(res), "fmtInt writes up to %d digit(s) (value <= %s) into room for %s", d, v.hi, ln)
+						e[x] = res
 					case a.summar[nm(cal)] && nm(cal) == "fmtFrac":
 						ln, ok1 := a.sliceLen(cc.Args[0], e)
 						v, ok2 := a.eval(cc.Args[1], e)
@@ -524,16 +617,20 @@ func (a *ivAnalyzer) analyze(fn *ssa.Function, params []ival) ([]ival, bool) {
 							a.oblige(fn, instrPos(x), "digits", false, "fmtFrac operands not evaluable")
 							continue
 						}
+						v, pr = v.conc(), pr.conc()
 						need := new(big.Int).Add(pr.hi, big.NewInt(1))
-						nl := new(big.Int).Sub(ln.lo, need)
-						a.oblige(fn, instrPos(x), "digits", nl.Sign() >= 0, "fmtFrac writes up to %s byte(s) into room for %s", need, ln)
+						lower := subIv(ln, ivb(need, need))
+						nl := lower.lo
+						a.oblige(fn, instrPos(x), "digits", nonNeg(lower), "fmtFrac writes up to %s byte(s) into room for %s", need, ln)
 						// results: nw, nv = v / 10^prec
 						plo := new(big.Int).Exp(big.NewInt(10), pr.lo, nil)
 						phi := new(big.Int).Exp(big.NewInt(10), pr.hi, nil)
 						for _, ref := range *x.Referrers() {
 							if ex, ok := ref.(*ssa.Extract); ok {
 								if ex.Index == 0 {
-									e[ex] = ivb(nl, ln.hi)
+									w0 := ivb(nl, ln.hi)
+									w0.sym = ln.sym
+									e[ex] = w0
 								} else {
 									e[ex] = ivb(new(big.Int).Quo(v.lo, phi), new(big.Int).Quo(v.hi, plo))
 								}
@@ -545,15 +642,47 @@ func (a *ivAnalyzer) analyze(fn *ssa.Function, params []ival) ([]ival, bool) {
 							var pv ival
 							if _, isSlice := cal.Params[i].Type().Underlying().(*types.Slice); isSlice {
 								pv, _ = a.sliceLen(arg, e)
+							} else if bt, isB := cal.Params[i].Type().Underlying().(*types.Basic); isB && bt.Info()&types.IsString != 0 {
+								if s, isC := constString(arg); isC {
+									pv = iv(int64(len(s)), int64(len(s)))
+								} else if l, has := e[arg]; has {
+									pv = l
+								}
 							} else {
 								pv, _ = a.eval(arg, e)
 							}
 							ps = append(ps, pv)
 						}
+						// a slice argument whose length is not a single value gets a symbolic length in the callee;
+						// an integer argument that IS that length (f(buf[:w], ..., w)) shares it
+						fresh := map[*symv]ival{}
+						for i, arg := range cc.Args {
+							if _, isSlice := cal.Params[i].Type().Underlying().(*types.Slice); !isSlice || ps[i].lo == nil || ps[i].sym != nil || ps[i].lo.Cmp(ps[i].hi) == 0 {
+								continue
+							}
+							a.nsym++
+							sv := &symv{rng: ps[i], id: a.nsym}
+							fresh[sv] = ps[i]
+							ps[i] = ival{big.NewInt(0), big.NewInt(0), sv}
+							if sl, isSl := arg.(*ssa.Slice); isSl && sl.High != nil && (sl.Low == nil || func() bool { z, c := constInt(sl.Low); return c && z == 0 }()) {
+								for j, other := range cc.Args {
+									if j != i && other == sl.High {
+										ps[j] = ival{big.NewInt(0), big.NewInt(0), sv}
+									}
+								}
+							}
+						}
 						res, ok := a.analyze(cal, ps)
 						if !ok {
 							a.oblige(fn, instrPos(x), "call", false, "helper %s could not be analysed (%s)", nm(cal), a.failed)
 							continue
+						}
+						for i := range res {
+							if base, mine := fresh[res[i].sym]; mine {
+								off := res[i]
+								off.sym = nil
+								res[i] = addIv(base, off)
+							}
 						}
 						if len(res) == 1 {
 							e[x] = res[0]
